@@ -118,6 +118,26 @@ def step (d : DState) (opLine : String) (impl : String) : DState × StepOut :=
                                       loc := fun i => if i = 1 then parsePair l1 else if i = 2 then parsePair l2 else (0, 0) }
         ({ d with proto := st }, { model := s!"ok | {viewStr st}" })
       | _ => (d, { model := "bad-op" })
+    | ["rawtso", a, c] =>
+      -- a request on a raw Tso stream: served like `req` when the allocator exists and the count is positive,
+      -- otherwise the stream has to end with an error (the protocol has no in-band error)
+      let a := natArg a; let c := natArg c
+      if a ≤ 2 then
+        let (st', ts?) : St × Option TS :=
+          if a = 0 then globalReq d.proto c
+          else
+            let s1 := PdModel.TsoGlobal.step d.proto (.localGrant a c)
+            (s1, some (s1.loc a))
+        let out := match ts? with
+          | some ts => s!"ts {ts.1} {differentiate ts.2 st'.bits (sfxOf d.psfx a)} {st'.bits}"
+          | none => "err"
+        ({ d with proto := st', mon := { d.mon with idx := d.mon.idx + 1 } }, { model := s!"{out} | {viewStr st'}" })
+      else
+        let fails := match words ((impl.splitOn " | ").headD "") with
+          | "ts" :: ms :: _ =>
+            [s!"sig=C01.global-tso-answer-for-a-refused-request alloc={a} count={c} physical={ms}"]
+          | _ => []
+        (d, { model := s!"err | {viewStr d.proto}", fails := fails })
     | "lrestart" :: _ =>
       -- every local allocator is re-elected: what its memory is afterwards is an input (C01–C03 territory),
       -- but it must not be below what it was (nor, by the monitor on later grants, below an earlier global)
